@@ -7,4 +7,7 @@ var Harnesses = map[string]func(){
 	"Exec":          Exec,
 	"AppSmoke":      AppSmoke,
 	"TabSmoke":      TabSmoke,
+	"Cli":           Cli,
+	"CliRepeat":     CliRepeat,
+	"Clean":         Clean,
 }
